@@ -355,8 +355,10 @@ func FromFloat(f float64) Number {
 	return Number{Negative: negative, Value: v, FractionDigits: fracDig}
 }
 
-// ParseInt returns s as a Number with FractionDigits=0.
-// octal, or hexadecimal using the standard prefix notations (e.g., 0 and 0x)
+// ParseInt returns s as a Number with FractionDigits=0. s is a decimal
+// integer, as YANG writes the values of enums, bit positions and the bounds of
+// ranges and lengths (RFC 7950 integer-value): "010" is ten, and the prefix
+// notations of Go ("0x10", "0o17", "0b11", "1_000") are not numbers.
 func ParseInt(s string) (Number, error) {
 	s = strings.TrimSpace(s)
 	var n Number
@@ -377,7 +379,7 @@ func ParseInt(s string) (Number, error) {
 	}
 
 	var err error
-	n.Value, err = strconv.ParseUint(ns, 0, 64)
+	n.Value, err = strconv.ParseUint(ns, 10, 64)
 	return n, err
 }
 
